@@ -868,6 +868,38 @@ def gen_ffi_tables(repo):
     funcs += 'Definition tls_server_lets : list (string * string) := [' + '; '.join(f'({coq_str(a)}, {coq_str(b)})' for a, b in s_lets) + '].\n'
     funcs += 'Definition tls_server_ctor_args : list string := [' + '; '.join(coq_str(x) for x in sargs) + '].\n\n'
 
+    # ------------------------------------------------------------------ the C-ABI address filter: order of the parse attempts of create, arms of add
+    pbody = body_of(fserver, r'\bfn\s+parse_address_filter\s*\(', 'server.rs parse_address_filter')
+    attempts = []
+    for am in re.finditer(r'parse::<\s*(\w+)\s*>\s*\(\s*\)|let\s+\w+\s*:\s*(\w+)\s*=\s*s\s*\.\s*parse\s*\(\s*\)', pbody):
+        attempts.append(am.group(1) or am.group(2))
+    if not attempts:
+        raise ParseError('server.rs parse_address_filter: no parse attempt found')
+    if not re.search(r'AddressFilter::AnyOf\s*\(\s*set\s*\)', pbody) or not re.search(r'AddressFilter::WildcardIpv4\s*\(\s*wc\s*\)', pbody):
+        raise ParseError('server.rs parse_address_filter: AnyOf(set) / WildcardIpv4(wc) results not found')
+    abody = body_of(fserver, r'pub\s+unsafe\s+fn\s+address_filter_add\s*\(', 'server.rs address_filter_add')
+    mm2 = re.search(r'match\s+address_filter\s*\{', abody)
+    if not mm2:
+        raise ParseError('server.rs address_filter_add: no `match address_filter`')
+    add_rows = []
+    for pat, expr in rp.match_arms(abody[mm2.end():matching(abody, mm2.end() - 1, '{', '}') - 1]):
+        var = re.match(r'AddressFilter::(\w+)', nows(pat))
+        if not var:
+            raise ParseError(f'server.rs address_filter_add: arm {pat}')
+        e = nows(expr)
+        if re.fullmatch(r'\{?set\.insert\(address\);?\}?', e):
+            act = 'Insert'
+        elif re.fullmatch(r'\{?returnErr\(ffi::ParamError::InvalidIpAddress\);?\}?', e):
+            act = 'Reject'
+        else:
+            act = e
+        add_rows.append((var.group(1), act))
+    funcs += ('(* server.rs parse_address_filter (rodbus_address_filter_create): the parsers tried on the string, in source order (the first that\n'
+              '   accepts decides: IpAddr -> AnyOf{address}, WildcardIPv4 -> WildcardIpv4(pattern)); address_filter_add: per variant of the filter,\n'
+              '   Insert = set.insert(address), Reject = return Err(InvalidIpAddress), anything else verbatim *)\n')
+    funcs += 'Definition filter_parse_order : list string := [' + '; '.join(coq_str(a) for a in attempts) + '].\n'
+    funcs += 'Definition filter_add_arms : list (string * string) := [' + '; '.join(f'({coq_str(a)}, {coq_str(b)})' for a, b in add_rows) + '].\n\n'
+
     out = 'Local Open Scope string_scope.\n\n' + en.render() + funcs
     out += '(* every conversion table: (Coq function, source enum, target enum) *)\n'
     out += 'Definition conversion_tables : list string := [' + '; '.join(coq_str(t[0]) for t in tables) + '].\n'
